@@ -82,9 +82,17 @@ func c12runHistory(evs []c12ev, np, max, ttl int) c12result {
 	addViol := func(sig, what string) { res.violations = append(res.violations, [2]string{sig, what}) }
 	prev := v.Snapshot()
 	var waiting []string
+	clock := 0                    // seconds, advanced by tick events (the harness's own clock)
+	lastHeard := map[string]int{} // receiver -> clock of its last join / accept
 	for i, e := range evs {
 		p := peerName(e.p)
 		executed := true
+		switch e.kind {
+		case "tick":
+			clock += e.d
+		case "join", "accept":
+			lastHeard[p] = clock
+		}
 		switch e.kind {
 		case "join", "accept":
 			for tid := range running {
@@ -197,12 +205,16 @@ func c12runHistory(evs []c12ev, np, max, ttl int) c12result {
 			}
 			waiting = removeStr(waiting, s.Peer)
 		}
-		// receivers dropped from the queue without being started (no state / cleanup)
+		// receivers dropped from the queue without being started (no state / cleanup):
+		// the idle cleanup may only drop a waiting receiver that has not been heard of
+		// (joined / accepted) for longer than the TTL
 		{
 			var keep []string
 			for _, w := range waiting {
 				if inList(snap.Queue, w) {
 					keep = append(keep, w)
+				} else if e.kind == "cleanup" && clock-lastHeard[w] <= ttl && !reannounced {
+					addViol("waiting-receiver-dropped", fmt.Sprintf("step %d (cleanup at t=%ds): %s accepted at t=%ds (TTL %ds) and was waiting for a slot, but the idle cleanup dropped it", i, clock, w, lastHeard[w], ttl))
 				}
 			}
 			waiting = keep
@@ -318,6 +330,26 @@ func runC12(cfg config) *hx.Report {
 		}
 	}
 
+	// directed: the idle cleanup against receivers that wait for a slot (no receiver id is
+	// ever re-announced here, so nothing of this is covered by the reannounce finding)
+	{
+		E := func(kind string, p, tid int, ok bool, d int) c12ev {
+			return c12ev{kind: kind, p: p, tid: tid, ok: ok, d: d}
+		}
+		for _, gap := range []int{0, 300, 540, 599} { // seconds between b's join and its accept (TTL 600)
+			for _, wait := range []int{1, 120, 590} { // seconds b then waits before the cleanup tick
+				evs := []c12ev{E("join", 0, 0, false, 0), E("accept", 0, 0, false, 0), E("kick", 0, 0, false, 0),
+					E("join", 1, 0, false, 0), E("tick", 0, 0, false, gap), E("accept", 1, 0, false, 0), E("kick", 0, 0, false, 0),
+					E("tick", 0, 0, false, wait), E("cleanup", 0, 0, false, 0), E("end", 0, 1, true, 0), E("kick", 0, 0, false, 0)}
+				emit(evs, 2, 1, "directed:cleanup-vs-waiting")
+				// two waiters, two slots taken
+				evs2 := []c12ev{E("join", 0, 0, false, 0), E("accept", 0, 0, false, 0), E("join", 1, 0, false, 0), E("accept", 1, 0, false, 0), E("kick", 0, 0, false, 0),
+					E("join", 2, 0, false, 0), E("join", 3, 0, false, 0), E("tick", 0, 0, false, gap), E("accept", 3, 0, false, 0), E("accept", 2, 0, false, 0),
+					E("tick", 0, 0, false, wait), E("cleanup", 0, 0, false, 0), E("end", 0, 2, false, 0), E("end", 0, 1, true, 0), E("kick", 0, 0, false, 0)}
+				emit(evs2, 4, 2, "directed:cleanup-vs-waiting")
+			}
+		}
+	}
 	// exhaustive short histories over two receivers
 	depth := 4
 	if cfg.tier == "thorough" {
